@@ -56,10 +56,25 @@ func (d *Data) NewArbSliceFromStrings(tlStr, trStr, blStr, resStr, sep string) (
 // The 3d points are in real world space definited by resolution, e.g., nanometer space.
 func (d *Data) NewArbSlice(topLeft, topRight, bottomLeft dvid.Vector3d, res float64) (*ArbSlice, error) {
 	// Compute the increments in x,y and number of pixels in each direction.
+	if !(res > 0) || math.IsInf(res, 1) {
+		return nil, fmt.Errorf("Bad arbitrary image resolution requested (must be positive): %f", res)
+	}
 	dx := topRight.Distance(topLeft)
 	dy := bottomLeft.Distance(topLeft)
 	nxFloat := math.Floor(dx / res)
 	nyFloat := math.Floor(dy / res)
+
+	// Check the size before it is converted to int32 and multiplied, which could overflow.
+	// Offsets into the image buffer are int32 as well.
+	maxBytes := float64(server.MaxDataRequest)
+	if maxBytes > math.MaxInt32 {
+		maxBytes = math.MaxInt32
+	}
+	bytesFloat := (nxFloat + 1) * (nyFloat + 1) * float64(d.Properties.Values.BytesPerElement())
+	if !(bytesFloat <= maxBytes) {
+		return nil, fmt.Errorf("Requested arbitrary image of %.0f x %.0f pixels (%.0f bytes) exceeds the limit of %.0f bytes",
+			nxFloat+1, nyFloat+1, bytesFloat, maxBytes)
+	}
 	incrX := topRight.Subtract(topLeft).DivideScalar(nxFloat)
 	incrY := bottomLeft.Subtract(topLeft).DivideScalar(nyFloat)
 	size := dvid.Point2d{int32(nxFloat) + 1, int32(nyFloat) + 1}
